@@ -265,7 +265,7 @@ def interval(body, e, depth=0, env=None):
 def closure_arg_expr(body, idx):
     """(parent body, expression) denoted by parameter idx (>= 2) of a closure, when the closure is handed to an Option /
     Result combinator in its creating function (map, map_or, and_then, ...: the parameter is the Some / Ok payload)"""
-    parent = body.facts.bodies.get(body.rec.get('parent') or '')
+    parent = body.facts.bodies.get(body.rec.get('parent') or '') or getattr(body.facts, 'spliced', {}).get(body.rec.get('parent') or '')
     if parent is None or idx != 2:
         return None
     for i in parent.normal_blocks:
@@ -296,7 +296,7 @@ def closure_param_interval(body, idx, depth, env):
     """interval of parameter `idx` (>= 2; 1 is the environment) of a closure, from the std combinator it is handed to in the
     creating function: Option::map / map_or / and_then / filter apply it to the Some payload; Iterator::position / any / all /
     map / filter / for_each to the items (an enumerate() item's .0 is an index)"""
-    parent = body.facts.bodies.get(body.rec.get('parent') or '')
+    parent = body.facts.bodies.get(body.rec.get('parent') or '') or getattr(body.facts, 'spliced', {}).get(body.rec.get('parent') or '')
     if parent is None or depth > 40:
         return None
     direct = None
@@ -370,9 +370,11 @@ def _array_column(e):
     corresponding component of every element (iteration over a literal table), else None"""
     path = []
     x = e
-    for _ in range(12):
+    for _ in range(16):
         if x[0] in ('ref', 'deref'):
             x = x[1]
+        elif x[0] == 'cast' and str(x[1]).startswith('PointerCoercion'):
+            x = x[3]                      # &[T; N] -> &[T]
         elif x[0] == 'field':
             path.append(x[2].lstrip('#'))
             x = x[1]
